@@ -1,6 +1,289 @@
-/- Line-protocol driver for engine `plan` — not built yet (stub). -/
+/-
+  Line-protocol driver for engine `plan` (C06: the chosen plan never changes the answer).
+
+  case   := "plan" DB IX "|" OP (" ; " OP)*
+  DB     := as in Driver/Sql (tables t0, t1, …; columns c0, c1, …)
+  IX     := "-" | IXD ("," IXD)*            unique indexes;  IXD := <table> ":" <col> ("+" <col>)*
+  OP     := STMT                            sel / ins / upd / del in the syntax of Driver/Sql
+          | "begin" | "rollback" | "commit" a session (= one transaction); the statements in between run inside it
+          | "vacuum"
+          | "analyze" <permille> <max>      ANALYZE with sample rate permille/1000 and at most <max> sampled rows
+          | "mkix"                          the point at which the *late* database of the harness creates the indexes
+
+  answer := OUT (" ; " OUT)*   one per op
+  OUT    := "same " R          a query: every plan variant of the harness returned R (R as in Driver/Sql: Rset:/Rord:/Rlist:)
+          | "A"<n> | "E"<class>            INSERT / UPDATE / DELETE
+          | "ok"                           begin, rollback, commit, vacuum, analyze, mkix
+          | "-"                            not compared (after a failed DML statement)
+
+  The specification is the reference evaluator of C05 run over the history: indexes, statistics, VACUUM and the
+  placement of index creation do not exist in it (`stats_irrelevant`), a rolled-back session leaves no trace.
+  On top of that the driver evaluates every plain query (no aggregates) through the plan algebra of Model/Plan: the bound
+  plan is rewritten by every transformation rule wherever it applies, table scans under a filter are replaced by index
+  scans over the maintained index model, and the result must be the reference answer (`optimize_sound`,
+  `index_scan_eq_filter`); a disagreement would be reported as `MODEL-DISAGREES` (it cannot happen for Defects.none).
+-/
+import AxVerif.Driver.Sql
+import AxVerif.Model.Plan
+namespace AxVerif.Plan
+open AxVerif AxVerif.Sql AxVerif.Index
+
+inductive Op where
+  | stmt (s : Stmt)
+  | begin | rollback | commit | vacuum | analyze | mkix
+
+def parseIx (w : String) : Option (Nat × List Nat) :=
+  match w.splitOn ":" with
+  | [t, cs] =>
+    match t.toNat?, allSome ((cs.splitOn "+").map String.toNat?) with
+    | some t, some cs => if cs.isEmpty then none else some (t, cs)
+    | _, _ => none
+  | _ => none
+
+def parseIxs (w : String) : Option (List (Nat × List Nat)) :=
+  if w == "-" then some [] else allSome ((w.splitOn ",").map parseIx)
+
+def isDec (w : String) : Bool := !w.isEmpty && w.length < 8 && w.toList.all Char.isDigit
+
+def parseOp (db : Db) (ws : List String) : Option Op :=
+  match ws with
+  | ["begin"] => some .begin
+  | ["rollback"] => some .rollback
+  | ["commit"] => some .commit
+  | ["vacuum"] => some .vacuum
+  | ["mkix"] => some .mkix
+  | ["analyze", r, m] => if isDec r && isDec m then some .analyze else none
+  | _ => (pStmt db ws).map .stmt
+
+/-! ### the store (rows with row ids, maintained indexes) next to the reference database -/
+
+def numberFrom (n : Nat) : List Row → Rows
+  | [] => []
+  | r :: rs => (n, r) :: numberFrom (n + 1) rs
+
+def initStore (db : Db) (ixs : List (Nat × List Nat)) : Store :=
+  (List.range db.length).map (fun t =>
+    let td := db.getD t default
+    let rows := numberFrom 1 td.rows
+    { tys := td.tys, rows := rows,
+      indexes := (ixs.filter (fun x => x.1 == t)).map (fun x => populate x.2 rows) })
+
+def nextRid (tb : STable) : Nat := tb.rows.foldl (fun m r => max m (r.1 + 1)) 1
+
+/-- the store after a DML statement that took the reference database from `db` to `db'` -/
+def stepStore (D : Index.Defects) (st : Store) (db db' : Db) : Stmt → Store
+  | .select _ => st
+  | .insert t _ =>
+    let tb := st.getD t default
+    let old := (db.getD t default).rows.length
+    let added := (db'.getD t default).rows.drop old
+    let news := numberFrom (nextRid tb) added
+    st.set t { tb with rows := tb.rows ++ news,
+                       indexes := tb.indexes.map (fun ix => news.foldl (fun ix r => ix.insert r.1 r.2) ix) }
+  | .update t sets _ =>
+    let tb := st.getD t default
+    let assigned := sets.map (·.1)
+    let pairs := tb.rows.zip (db'.getD t default).rows
+    let changed := pairs.filter (fun p => p.1.2 != p.2)
+    st.set t { tb with rows := pairs.map (fun p => (p.1.1, p.2)),
+                       indexes := tb.indexes.map (fun ix =>
+                         changed.foldl (fun ix p => ix.update D p.1.1 p.1.2 p.2 assigned) ix) }
+  | .delete t w =>
+    let tb := st.getD t default
+    let gone := tb.rows.filter (fun r => match predOf {} tb.tys w r.2 with
+      | .ok true => true
+      | _ => false)
+    st.set t { tb with rows := tb.rows.filter (fun r => !(gone.any (fun g => g.1 == r.1))),
+                       indexes := tb.indexes.map (fun ix => gone.foldl (fun ix r => ix.delete r.2) ix) }
+
+def storeConsistentB (st : Store) : Bool :=
+  st.all (fun tb => tb.indexes.all (fun ix => consistentB ix tb.rows))
+
+/-- does the store still describe the reference database? -/
+def storeMatches (st : Store) (db : Db) : Bool :=
+  st.length == db.length && (st.zip db).all (fun p => showRows false (p.1.rows.map (·.2)) == showRows false p.2.rows)
+
+/-! ### a query through the plan algebra: every plan the rules reach must give the reference answer -/
+
+def fromSize (st : Store) : From → Nat
+  | .table t => (st.getD t default).rows.length + 1
+  | .join _ l r _ => fromSize st l * fromSize st r
+
+def planDefects (flags : List String) : Plan.Defects :=
+  { joinCommuteKeepsIndices := flags.contains "joinCommuteKeepsIndices"
+    helpersSkipForms := flags.contains "helpersSkipForms"
+    memoIgnoresPredicates := flags.contains "memoIgnoresPredicates"
+    assocDropsBOnly := flags.contains "assocDropsBOnly"
+    indexScanIgnoresNullable := flags.contains "indexScanIgnoresNullable" }
+
+/-- number of reachable plans checked, or the first plan that disagrees with the reference rows -/
+def crossCheck (D : Plan.Defects) (st : Store) (q : Select) (out : List Row) : Except String Nat :=
+  if !(q.aggs.isEmpty && q.orderBy.isEmpty && !q.distinct && q.limit.isNone && q.offset.isNone) then .ok 0
+  else if fromSize st q.from_ > 3000 then .ok 0
+  else
+    let p0 := boundPlan q
+    if !(p0.wellScoped st) then .error "ill-scoped"
+    else
+      let want := showRows true out
+      let plans := explore D st 3 [if D.memoIgnoresPredicates then memoJoinInputs D p0 else p0]
+      match plans.find? (fun p => showRows true (evalPlan st p) != want) with
+      | some p => .error (toString (repr p)).length.repr
+      | none => .ok plans.length
+
+structure St where
+  db : Db
+  store : Store
+  /-- database and store at `begin` of the open session -/
+  saved : Option (Db × Store) := none
+  failed : Bool := false
+
+def stepOp (D : Sql.Defects) (PD : Plan.Defects) (ID : Index.Defects) (st : St) (op : Op) : St × String :=
+  if st.failed then (st, "-") else
+  match op with
+  | .begin => ({ st with saved := some (st.saved.getD (st.db, st.store)) }, "ok")
+  | .rollback =>
+    let (db, store) := st.saved.getD (st.db, st.store)
+    ({ st with db := db, store := store, saved := none }, "ok")
+  | .commit => ({ st with saved := none }, "ok")
+  | .vacuum | .analyze | .mkix => (st, "ok")
+  | .stmt s =>
+    let (db', o) := execStmt D nullsFirstOfEngine st.db s
+    match s, o with
+    | .select q, .rows out =>
+      match crossCheck PD st.store q out with
+      | .ok _ => (st, "same " ++ showOutcome s o)
+      | .error why => (st, "MODEL-DISAGREES plan=" ++ why ++ " " ++ showOutcome s o)
+    | .select _, _ => (st, "same " ++ showOutcome s o)
+    | _, _ =>
+      let out := showOutcome s o
+      if out.startsWith "E" then ({ st with failed := true }, out)
+      else
+        let store' := stepStore ID st.store st.db db' s
+        if !(storeMatches store' db') then ({ st with db := db', store := store' }, "MODEL-DISAGREES store " ++ out)
+        else if !(storeConsistentB store') && !ID.indexUpdateKeepsOldKey then
+          ({ st with db := db', store := store' }, "MODEL-DISAGREES index-inconsistent " ++ out)
+        else ({ st with db := db', store := store' }, out)
+
+def runOps (D : Sql.Defects) (PD : Plan.Defects) (ID : Index.Defects) : St → List Op → List String
+  | _, [] => []
+  | st, op :: ops =>
+    let (st', o) := stepOp D PD ID st op
+    o :: runOps D PD ID st' ops
+
+def step (flags : List String) (line : String) : String :=
+  match words line with
+  | "plan" :: dbw :: ixw :: "|" :: rest =>
+    match parseDb dbw, parseIxs ixw with
+    | some db, some ixs =>
+      if ixs.any (fun x => x.2.any (fun c => c ≥ (db.getD x.1 default).tys.length) || x.1 ≥ db.length) then "bad-op" else
+      match allSome ((splitStmts rest).map (parseOp db)) with
+      | none => "bad-op"
+      | some ops =>
+        let ID : Index.Defects := { indexUpdateKeepsOldKey := flags.contains "indexUpdateKeepsOldKey" }
+        joinWith " ; " (runOps {} (planDefects flags) ID { db := db, store := initStore db ixs } ops)
+    | _, _ => "bad-op"
+  | _ => "bad-op"
+
+/-! ### rule-level cases: `rule <TABLES> <IX> | <PLAN>` → what each transformation rule makes of the root of the plan -/
+
+mutual
+def showExprW : Expr → List String
+  | .lit v => [showVal v]
+  | .col i => [s!"c{i}"]
+  | .not e => "not" :: showExprW e
+  | .neg e => "neg" :: showExprW e
+  | .pos e => "pos" :: showExprW e
+  | .and a b => "and" :: (showExprW a ++ showExprW b)
+  | .or a b => "or" :: (showExprW a ++ showExprW b)
+  | .cmp op a b =>
+    (match op with | .eq => "eq" | .ne => "ne" | .lt => "lt" | .le => "le" | .gt => "gt" | .ge => "ge") :: (showExprW a ++ showExprW b)
+  | .arith op a b =>
+    (match op with | .add => "add" | .sub => "sub" | .mul => "mul" | .div => "div" | .mod => "mod") :: (showExprW a ++ showExprW b)
+  | .like n a b => (if n then "nlike" else "like") :: (showExprW a ++ showExprW b)
+  | .isNull n e => (if n then "notnull" else "isnull") :: showExprW e
+  | .between n e lo hi => (if n then "nbtw" else "btw") :: (showExprW e ++ showExprW lo ++ showExprW hi)
+  | .inList n e xs => ((if n then "nin" else "in") ++ toString xs.length) :: (showExprW e ++ showExprsW xs)
+def showExprsW : List Expr → List String
+  | [] => []
+  | e :: es => showExprW e ++ showExprsW es
+end
+
+def showKind : JoinKind → String
+  | .inner => "inner" | .left => "left" | .right => "right" | .full => "full" | .cross => "cross"
+
+def showBoundW (b : Bound) : List String := [s!"b{b.pos}", if b.inclusive then "in" else "ex", showVal b.value]
+
+def showPlanW : Plan → List String
+  | .scan t => ["scan", s!"t{t}"]
+  | .indexScan t k lo hi resid =>
+    ["ixscan", s!"t{t}", s!"x{k}", s!"lo{lo.length}"] ++ lo.flatMap showBoundW ++ [s!"hi{hi.length}"] ++ hi.flatMap showBoundW
+      ++ (match resid with | none => ["-"] | some e => "r" :: showExprW e)
+  | .filter e c => "filter" :: (showExprW e ++ showPlanW c)
+  | .project items c => "project" :: s!"p{items.length}" :: (showExprsW items ++ showPlanW c)
+  | .join k on l r =>
+    "join" :: showKind k :: ((match on with | none => ["-"] | some e => "on" :: showExprW e) ++ showPlanW l ++ showPlanW r)
+
+def pPlan : Nat → P Plan
+  | 0, _ => none
+  | _, [] => none
+  | fuel + 1, w :: ws =>
+    match w with
+    | "scan" => match ws with
+      | t :: r => (numAfter "t" t).map fun t => (.scan t, r)
+      | [] => none
+    | "filter" => (pExpr (fuel + 1) ws).bind fun (e, r) => (pPlan fuel r).map fun (c, r) => (.filter e c, r)
+    | "project" => match ws with
+      | n :: r => (numAfter "p" n).bind fun n => (pExprs (fuel + n + 1) n r).bind fun (es, r) =>
+          (pPlan fuel r).map fun (c, r) => (.project es c, r)
+      | [] => none
+    | "join" => match ws with
+      | k :: r => (joinKindOfWord k).bind fun k => (pOn (fuel + 1) r).bind fun (on, r) =>
+          (pPlan fuel r).bind fun (l, r) => (pPlan fuel r).map fun (rr, r) => (.join k on l rr, r)
+      | [] => none
+    | _ => none
+
+def parseRuleTable (ixs : List (Nat × List Nat)) (t : Nat) (w : String) : Option STable :=
+  if w.isEmpty then none else
+  match allSome (w.toList.map (fun c => tyOfChar c.toUpper)) with
+  | none => none
+  | some tys =>
+    some { tys := tys, notNull := w.toList.map Char.isLower, rows := [],
+           indexes := (ixs.filter (fun x => x.1 == t)).map (fun x => { cols := x.2, entries := [] }) }
+
+def showAlts (ps : List Plan) : String :=
+  if ps.isEmpty then "-" else joinWith " & " (ps.map (fun p => joinWith " " (showPlanW p)))
+
+def ruleStep (D : Plan.Defects) (line : String) : String :=
+  match words line with
+  | "rule" :: tw :: ixw :: "|" :: rest =>
+    match parseIxs ixw with
+    | none => "bad-op"
+    | some ixs =>
+      let tws := tw.splitOn "/"
+      if ixs.any (fun x => x.1 ≥ tws.length) then "bad-op" else
+      match allSome ((List.range tws.length).map (fun t => parseRuleTable ixs t (tws.getD t ""))) with
+      | none => "bad-op"
+      | some st =>
+        if st.any (fun tb => tb.indexes.any (fun ix => ix.cols.any (fun c => c ≥ tb.tys.length)) || tb.indexes.length > 15) then "bad-op" else
+        match pPlan (rest.length + 1) rest with
+        | some (p, []) =>
+          let ixn := match p with
+            | .filter _ (.scan t) => (st.getD t default).indexes.length
+            | _ => 0
+          joinWith " ; " [
+            "JoinCommutativity:" ++ showAlts (joinCommute D st p).toList,
+            "JoinAssociativity:" ++ showAlts (joinAssoc D st p).toList,
+            "FilterMerge:" ++ showAlts (filterMerge p).toList,
+            "FilterPushdownJoin:" ++ showAlts (filterPushdownJoin D st p).toList,
+            "FilterPushdownProject:" ++ showAlts (filterPushdownProject D p).toList,
+            "FilterToIndexScan:" ++ showAlts ((List.range ixn).filterMap (fun k => filterToIndexScan D st k p))]
+        | _ => "bad-op"
+  | _ => "bad-op"
+
+end AxVerif.Plan
+
 namespace AxVerif.Drivers
-
-def plan (_flags : List String) (_line : String) : String := "unimplemented"
-
+def plan (flags : List String) (line : String) : String :=
+  if line.startsWith "rule " then AxVerif.Plan.ruleStep (AxVerif.Plan.planDefects flags) line
+  else AxVerif.Plan.step flags line
 end AxVerif.Drivers
